@@ -52,12 +52,13 @@ enum Probe
 	P_SWAP,
 	P_ZERO_PREF,
 	P_EXCURSION,
+	P_DETOUR,
 	P_CONC,
 	P_CONC_POINTS,
 	P_CONC_SWITCHES,
 	P_NPROBES
 };
-const char* PROBE_NAMES[] = {"locate_hunt_up", "locate_hunt_down", "locate_bisection", "locate_same_segment", "locate_extrapolation_zone", "query_at_knot", "query_at_knot_while_correlated", "query_at_nextafter_of_knot", "copy_construct", "assign_into_object_of_other_table", "self_assign", "copy_then_destroy_original", "prefactor_negative_set", "prefactor_tiny_or_huge_set", "extremum_query_spanning_3plus_knots", "extremum_or_integral_limit_in_extrapolation_zone", "integral_spanning_many_pieces", "integral_reversed_limits", "query_under_prefactor_not_1", "query_under_negative_prefactor", "run_is_2d", "oracle_comparisons", "bit_exact_comparisons", "tolerance_comparisons_at_knots", "sweep_ops", "table_200_or_more_points", "comparisons_with_a_pristine_process", "same_argument_asked_of_another_table_first", "move_assignment", "swap_of_two_objects", "query_under_zero_prefactor", "prefactor_excursion_to_1e+-150..290_and_back", "pairs_of_query_sequences_run_on_two_threads_at_once", "scheduling_points_(static_storage_accesses)_inside_paired_calls", "preemptions_inside_paired_calls"};
+const char* PROBE_NAMES[] = {"locate_hunt_up", "locate_hunt_down", "locate_bisection", "locate_same_segment", "locate_extrapolation_zone", "query_at_knot", "query_at_knot_while_correlated", "query_at_nextafter_of_knot", "copy_construct", "assign_into_object_of_other_table", "self_assign", "copy_then_destroy_original", "prefactor_negative_set", "prefactor_tiny_or_huge_set", "extremum_query_spanning_3plus_knots", "extremum_or_integral_limit_in_extrapolation_zone", "integral_spanning_many_pieces", "integral_reversed_limits", "query_under_prefactor_not_1", "query_under_negative_prefactor", "run_is_2d", "oracle_comparisons", "bit_exact_comparisons", "tolerance_comparisons_at_knots", "sweep_ops", "table_200_or_more_points", "comparisons_with_a_pristine_process", "same_argument_asked_of_another_table_first", "move_assignment", "swap_of_two_objects", "query_under_zero_prefactor", "prefactor_excursion_to_1e+-150..290_and_back", "object_assigned_another_table_and_back_from_an_unevaluated_backup", "pairs_of_query_sequences_run_on_two_threads_at_once", "scheduling_points_(static_storage_accesses)_inside_paired_calls", "preemptions_inside_paired_calls"};
 
 enum Metric
 {
@@ -1235,7 +1236,36 @@ struct Exec
 			{
 				int mode = o.i.size() > 2 ? (int) o.i[2] : 0;
 				int di	 = (int) ((((o.i.size() > 1 ? o.i[1] : 1) % 4) + 4) % 4);
-				if(mode == 2 || di == si)
+				if(mode == 6)
+				{
+					// detour: a backup copy is taken (and never evaluated), the object is assigned - from an lvalue - the state of an
+					// object on another table (other size and shape when the plan has one, else a default-constructed object), and is
+					// then assigned its backup again. Logically nothing happened; whatever the object caches must have followed.
+					ctx.probe(P_DETOUR);
+					if(tab.two_d)
+					{
+						Interpolation_2D backup(*s.o2);
+						Interpolation_2D other = (have_alt && alt.two_d) ? make2d(alt) : Interpolation_2D();
+						if(have_alt && alt.two_d)
+							(void) other(alt.xs[alt.xs.size() / 2], alt.ys[alt.ys.size() / 2]);
+						*s.o2 = other;
+						if(have_alt && alt.two_d)
+							(void) (*s.o2)(alt.xs[0], alt.ys[0]);
+						*s.o2 = backup;
+					}
+					else
+					{
+						Interpolation backup(*s.o1);
+						Interpolation other = (have_alt && !alt.two_d) ? make1d(alt) : Interpolation();
+						if(have_alt && !alt.two_d)
+							(void) other(alt.xs[alt.xs.size() / 2]);
+						*s.o1 = other;
+						if(have_alt && !alt.two_d)
+							(void) (*s.o1)(alt.xs[0]);
+						*s.o1 = backup;
+					}
+				}
+				else if(mode == 2 || di == si)
 				{
 					// self assignment
 					ctx.probe(P_SELF_ASSIGN);
@@ -1614,6 +1644,30 @@ struct Gen
 		}
 	}
 
+	// limit pairs that a draw "by category" never produces together: one limit bit-exactly on the first or last abscissa and the
+	// other inside the extrapolation zone next to it; the whole tabulated domain; two knots (adjacent, arbitrary, or the same)
+	void edge_pair(Rng& r, const std::vector<double>& xs, double& a, double& b)
+	{
+		size_t N  = xs.size();
+		double zl = 0.009 * (xs[1] - xs[0]), zr = 0.009 * (xs[N - 1] - xs[N - 2]);
+		switch(r.below(6))
+		{
+			case 0: a = xs[0] - r.range(0.05, 1.0) * zl, b = xs[0]; break;
+			case 1: a = xs[N - 1], b = xs[N - 1] + r.range(0.05, 1.0) * zr; break;
+			case 2: a = xs[0], b = xs[N - 1]; break;
+			case 3:
+			{
+				size_t j = r.below(N - 1);
+				a = xs[j], b = xs[j + 1];
+				break;
+			}
+			case 4: a = xs[0] - r.range(0.05, 1.0) * zl, b = xs[N - 1] + r.range(0.05, 1.0) * zr; break;
+			default: a = xs[r.below(N)], b = xs[r.below(N)]; break;
+		}
+		if(r.chance(0.3))
+			std::swap(a, b);
+	}
+
 	double prefactor(Rng& r)
 	{
 		switch(r.below(10))
@@ -1856,6 +1910,8 @@ struct Gen
 					b = next_point(r, c, tab.xs, c.cursor);
 				if(r.chance(0.04))
 					b = a;	 // equal limits
+				if(r.chance(0.06))
+					edge_pair(r, tab.xs, a, b);
 				o = Op("integ", {c.slot}, {a, b});
 			}
 			else if(cat == 2)
@@ -1870,6 +1926,8 @@ struct Gen
 					b = point(r, tab.xs, cj + r.irange(1, 4), (int) r.below(3));
 				else
 					b = next_point(r, c, tab.xs, c.cursor);
+				if(r.chance(0.06))
+					edge_pair(r, tab.xs, a, b);
 				if(b < a)
 					std::swap(a, b);
 				o = Op(r.chance(0.5) ? "lmin" : "lmax", {c.slot}, {a, b});
@@ -1933,18 +1991,18 @@ struct Gen
 			}
 			else if(cat == 6)
 			{
-				int mode = (int) r.pick(std::vector<long long>{0, 1, 1, 2, 3, 4, 5});
+				int mode = (int) r.pick(std::vector<long long>{0, 1, 1, 2, 3, 4, 5, 6});
 				int dst	 = (int) r.below(4);
 				if(mode == 5 && (!live[dst] || dst == c.slot))
 					mode = 0;	// swap needs two live objects
-				if(mode == 2)
+				if(mode == 2 || mode == 6)
 					dst = c.slot;
 				else if(dst == c.slot)
 					dst = (dst + 1) % 4;
 				o = Op("copy", {c.slot, dst, mode});
 				if(mode == 5)
 					std::swap(net[dst], net[c.slot]);
-				else if(mode != 2)
+				else if(mode != 2 && mode != 6)
 				{
 					live[dst] = true;
 					net[dst]  = net[c.slot];
